@@ -14,6 +14,7 @@ U.reveal_strlits = True
 U.macro_replacements = {'eco_format': 'crate::prelude::opaque_eco_string()'}
 U.externs = ['rowan', 'ecow', 'unscanny']
 U.flags = []
+U.features = ['pattern']   # core::str::pattern::Pattern is named in the assumed contracts of str::strip_prefix / starts_with
 # failures that are not tied to a spliced clause: termination and panic freedom belong to C02
 U.kind_tags = {'decreases': 'C02', 'termination': 'C02', 'overflow': 'C02', 'assert': 'C02', 'panic': 'C02', 'divzero': 'C02', 'bounds': 'C02'}
 
@@ -191,7 +192,8 @@ U.fn('lexer.rs', 'Lexer::identifier', requires=NUM_REQ,
 U.fn('lexer.rs', 'is_identifier_start', ensures=['ret == is_ident_start(c)'])
 U.fn('lexer.rs', 'is_identifier_continue', ensures=['ret == is_ident_cont(c)'])
 U.fn('lexer.rs', 'is_newline', ensures=["ret == (c == '\\r' || c == '\\n')"])
-U.fn('lexer.rs', 'interpret_number', attrs=['external_body'])
+U.fn('lexer.rs', 'interpret_number', tags='C14',
+     prologue='broadcast use {ax_std_pat_str, ax_std_pat_char}; proof { reveal_strlit("0x"); reveal_strlit("0b"); assert("0x"@ =~= seq![\'0\', \'x\']); assert("0b"@ =~= seq![\'0\', \'b\']); assert(seq![\'-\'].len() == 1); if text@.len() > 0 { assert(text@.subrange(0, 1) =~= seq![text@[0]]); assert(text@.subrange(0, 1)[0] == text@[0]); } assert(seq![\'-\'][0] == \'-\'); }')
 
 # ----------------------------------------------------------------------------- preprocessor.rs
 U.prepend('preprocessor.rs', 'broadcast use {ax_msg_str};')
